@@ -59,6 +59,32 @@ theorem doc_request_accepted (ρ : Env) (fs : Fields) (q : List (String × Strin
     ∃ r, extractParams fs q = .ok r :=
   extract_ok ρ fs q hreq hval
 
+/-- **C07 (document-derived parameters, code as it stands).**  The same for the
+extraction the code performs when some members come from a `#[serde(flatten)]`ed
+struct — provided no supplied flattened member is non-string (`…_partial`: the
+excluded region is finding K6, witness `flattened_numeric_member_refused`). -/
+theorem doc_request_accepted_partial (ρ : Env) (flat : List String) (fs : Fields)
+    (q : List (String × String))
+    (hflat : q.any (fun kv => flat.contains kv.1 &&
+      (match fs.lookup kv.1 with | some t => !t.stringly | none => false)) = false)
+    (hreq : ∀ n s, (n, true, s) ∈ paramList fs → (lookupStr n q).isSome = true)
+    (hval : ∀ n t d, (n, t, d) ∈ fs.toList → ∀ v, lookupStr n q = some v →
+      ∃ j, readParam t v = some j ∧ (schemaOf t).valid ρ j = true ∧ formatOk t j = true) :
+    ∃ r, extractParamsFlat flat fs q = .ok r := by
+  unfold extractParamsFlat
+  rw [hflat]
+  exact doc_request_accepted ρ fs q hreq hval
+
+/-- **K6.**  `struct Q { own: u8, #[serde(flatten)] inner: { fx: u16 } }`: the
+request `own=5&fx=7` supplies every documented-required parameter with a value
+valid for its documented schema, yet the extraction the code performs fails;
+without the flatten it would succeed. -/
+theorem flattened_numeric_member_refused :
+    let fs : Fields := .cons "own" (.int .w8 false) false (.cons "fx" (.int .w16 false) false .nil)
+    let q := [("own", "5"), ("fx", "7")]
+    extractParamsFlat ["fx"] fs q = .error 400 ∧ (∃ r, extractParams fs q = .ok r) :=
+  ⟨rfl, _, rfl⟩
+
 /-- the parameter list marks exactly the non-`Option`, non-defaulted members
 required, and publishes each member's own schema. -/
 theorem paramList_spec (name : String) (ty : Ty) (dflt : Bool) (rest : Fields) :
@@ -114,6 +140,38 @@ theorem success_documented (ρ : Env) (k : Kind) (t : Ty) (j : J) (h : (decodeJs
         | _, _ => False) := by
   have hv := accepted_is_valid ρ t j h
   cases k <;> simp [respond, docResponse, Kind.hasBody, Kind.status, hv]
+
+/-- **C07 (successful responses, with a declared header struct).**  As above for
+`HttpResponseHeaders<_, H>` when `H` has string members only (`…_partial`: the
+excluded region is finding K7, witness `nonstring_header_member_fails`). -/
+theorem success_documented_partial (ρ : Env) (hdr : Option Fields) (k : Kind) (t : Ty) (j : J)
+    (hh : ∀ fs, hdr = some fs → headersSerialisable fs = true)
+    (h : (decodeJson t j).isSome = true) :
+    (respondH hdr k j).status = (docResponse k t).status := by
+  have := (success_documented ρ k t j h).1
+  cases hdr with
+  | none => simpa [respondH] using this
+  | some fs => simpa [respondH, hh fs rfl] using this
+
+/-- **K7.**  With `struct H { x_num: u32 }` every response is a 500 although the
+document promises the success status. -/
+theorem nonstring_header_member_fails (k : Kind) (j : J) :
+    (respondH (some (.cons "x_num" (.int .w32 false) false .nil)) k j).status = 500 := rfl
+
+/-- **K8.**  `Option<T>` of a referenceable `T` (struct, enum) at the root of a
+body or response: serde produces / accepts `null`, the published root schema
+does not admit it. -/
+theorem root_option_of_ref_loses_null (ρ : Env) (fs : Fields) :
+    (decodeJson (.opt (.struct fs)) .null).isSome = true
+    ∧ (rootSchemaOf (.opt (.struct fs))).valid ρ .null = false := by
+  refine ⟨rfl, ?_⟩
+  simp [rootSchemaOf, Ty.isRef, schemaOf, valid_typed, IType.admits, extNullable_nil]
+
+/-- …whereas inside a named definition (a struct member) the visitor's
+`allOf` wrapper keeps `null`. -/
+theorem member_option_of_ref_keeps_null (ρ : Env) (fs : Fields) :
+    (schemaOf (.opt (.struct fs))).valid ρ .null = true := by
+  rw [schemaOf_opt_valid]; simp [J.isNull]
 
 /-! ### Errors -/
 
